@@ -431,6 +431,10 @@ func genScenario(r *common.Rand, idx int) *Scenario {
 		if r.Chance(1, 6) { // the content lives elsewhere than under its name
 			it.Path = hx(common.Pick(r, []string{"", "/"}) + fmt.Sprintf("_elsewhere/%d/x", i))
 		}
+		if sc.NonRoot && sc.Umask&0o300 != 0 {
+			// the directories above the base would be created unusable by pushDir itself (not in the model)
+			it.Name = hx(strings.ReplaceAll(filepath.ToSlash(filepath.Clean(nm)), "/", "_"))
+		}
 		sc.Items = append(sc.Items, it)
 	}
 	return sc
@@ -1549,8 +1553,16 @@ func tamperCases(ctx context.Context, sc *Scenario, scid, tail, work string, i i
 		if err != nil {
 			res = "ERR"
 		}
+		// what Push left in the directory, whether it succeeded or not
+		residue := "RES -"
+		if left, serr := snapshot(filepath.Join(dir, name)); serr == nil {
+			residue = "RES " + listing(left)
+		}
 		id := run.NewID()
-		run.Case(id, fmt.Sprintf("U%s %d %d %s %d %d %s %s%s", map[bool]string{false: "", true: "U"}[sc.NonRoot], sc.Umask, b2i(sc.Preserve), v.ckModel, b2i(v.digestOK), b2i(v.sizeOK), nameComps(name), tree(it.Tree, false), tail), res)
+		run.Case(id, fmt.Sprintf("U%s %d %d %s %d %d %s %s%s", map[bool]string{false: "", true: "U"}[sc.NonRoot], sc.Umask, b2i(sc.Preserve), v.ckModel, b2i(v.digestOK), b2i(v.sizeOK), nameComps(name), tree(it.Tree, false), tail), res+" "+residue)
+		if err != nil {
+			run.Count("residue-after-failed-push")
+		}
 		run.Count("unpack-" + v.tag + "=" + res)
 		run.Nontrivial("U " + v.tag + string(d.Digest))
 		bn := benign(it.Tree, name)
@@ -1677,7 +1689,12 @@ func foreignCase(ctx context.Context, sc *Scenario, tail, work string, it Item) 
 	id := run.NewID()
 	input := fmt.Sprintf("E%s %d %d %s %d %s%s", map[bool]string{false: "", true: "U"}[sc.NonRoot], sc.Umask, b2i(sc.Preserve), nameComps(unhx(it.Name)), len(es), strings.Join(toks, " "), tail)
 	if perr != nil {
-		run.Case(id, input, strings.SplitN(errClass(perr), ":", 2)[0])
+		residue := "RES -"
+		if left, serr := snapshot(filepath.Join(dir, name)); serr == nil {
+			residue = "RES " + listing(left)
+		}
+		run.Count("residue-after-failed-push")
+		run.Case(id, input, strings.SplitN(errClass(perr), ":", 2)[0]+" "+residue)
 		run.Count("foreign=" + strings.SplitN(errClass(perr), ":", 2)[0])
 		run.Nontrivial(input)
 		return
